@@ -248,22 +248,123 @@ type valOpts struct {
 	maxLen  int
 }
 
+// unkLog records the kind of every unknown value drawn for the current case
+// (workers are single-threaded; genArgs resets and reads it).
+var unkLog []string
+
+// unknownOf draws an unknown value of type ty from the menu of refinement
+// kinds: unrefined; not-null only; for collections an exact length that stays
+// unknown because the value may still be null, an exact length with not-null,
+// length bounds lo..hi (incl. 0..0 and n..n), one-sided bounds; for numbers
+// equal inclusive bounds (nullable, so the value stays unknown although its
+// range holds one value), two-sided and one-sided bounds, inclusive or not;
+// for strings a prefix (full or safely trimmed). Whether a refinement
+// collapses the value into a known one is up to the library; if it does, the
+// case simply has a known argument there.
 func unknownOf(r *rnd, ty cty.Type) cty.Value {
 	if ty == cty.DynamicPseudoType {
+		unkLog = append(unkLog, "dynamic")
 		return cty.DynamicVal
 	}
-	if ty == cty.String && r.Chance(1, 2) {
-		pfx := []string{"{", "[", "\"", "t", "f", "n", "-", "1", "x", " {", "é", "%d", "a"}[r.Intn(13)]
-		b := cty.UnknownVal(cty.String).Refine()
-		if r.Bool() {
+	kind := "unrefined"
+	v := cty.UnknownVal(ty)
+	g := core.Guard(func() {
+		b := cty.UnknownVal(ty).Refine()
+		notNull := false
+		switch {
+		case ty.IsListType() || ty.IsSetType() || ty.IsMapType():
+			switch r.Intn(8) {
+			case 0:
+				return
+			case 1:
+				kind, notNull = "not-null-only", true
+			case 2, 3:
+				kind = "exact-length-nullable"
+				b = b.CollectionLength(r.Intn(4))
+			case 4:
+				kind, notNull = "exact-length-not-null", true
+				b = b.CollectionLength(r.Intn(4))
+			case 5:
+				kind = "length-bounds"
+				lo := r.Intn(3)
+				hi := lo + r.Intn(3)
+				b = b.CollectionLengthLowerBound(lo).CollectionLengthUpperBound(hi)
+				notNull = r.Bool()
+			case 6:
+				kind = "length-lower-bound"
+				b = b.CollectionLengthLowerBound(r.Intn(4))
+				notNull = r.Bool()
+			default:
+				kind = "length-upper-bound"
+				b = b.CollectionLengthUpperBound(r.Intn(4))
+				notNull = r.Bool()
+			}
+		case ty == cty.Number:
+			pick := func() cty.Value {
+				if r.Chance(1, 4) {
+					return hostileNumber(r)
+				}
+				return cty.NumberIntVal(int64(r.Intn(9) - 3))
+			}
+			switch r.Intn(7) {
+			case 0:
+				return
+			case 1:
+				kind, notNull = "not-null-only", true
+			case 2, 3:
+				kind = "number-equal-bounds-nullable"
+				n := pick()
+				b = b.NumberRangeInclusive(n, n)
+			case 4:
+				kind = "number-two-bounds"
+				lo := int64(r.Intn(9) - 4)
+				b = b.NumberRangeLowerBound(cty.NumberIntVal(lo), r.Bool()).NumberRangeUpperBound(cty.NumberIntVal(lo+1+int64(r.Intn(4))), r.Bool())
+				notNull = r.Bool()
+			case 5:
+				kind = "number-lower-bound"
+				b = b.NumberRangeLowerBound(pick(), r.Bool())
+				notNull = r.Bool()
+			default:
+				kind = "number-upper-bound"
+				b = b.NumberRangeUpperBound(pick(), r.Bool())
+				notNull = r.Bool()
+			}
+		case ty == cty.String:
+			switch r.Intn(5) {
+			case 0:
+				return
+			case 1:
+				kind, notNull = "not-null-only", true
+			default:
+				kind = "string-prefix"
+				pfx := []string{"{", "[", "\"", "t", "f", "n", "-", "1", "x", " {", "é", "%d", "a", "a\n", "2006-01-02T", "(", "%"}[r.Intn(17)]
+				if r.Bool() {
+					b = b.StringPrefixFull(pfx)
+				} else {
+					b = b.StringPrefix(pfx)
+				}
+				notNull = r.Bool()
+			}
+		default:
+			if r.Bool() {
+				return
+			}
+			kind, notNull = "not-null-only", true
+		}
+		if notNull {
 			b = b.NotNull()
 		}
-		if r.Bool() {
-			return b.StringPrefixFull(pfx).NewValue()
-		}
-		return b.StringPrefix(pfx).NewValue()
+		v = b.NewValue()
+	})
+	if g.Panicked {
+		// an inconsistent combination refused by the builder: fall back
+		kind, v = "unrefined", cty.UnknownVal(ty)
 	}
-	return gen.Unknown(r, ty, true)
+	if v.IsKnown() {
+		kind += "(collapsed-to-known)"
+	}
+	unkLog = append(unkLog, kind)
+	return v
 }
 
 // genVal draws a value of exactly type ty (dynamic positions of ty hold
@@ -388,9 +489,10 @@ func genOfType(r *rnd, ty cty.Type, o valOpts) cty.Value {
 // argument lists
 
 type argList struct {
-	vals    []cty.Value
-	classes []string // one input class per argument (for the counters)
-	profile string
+	vals         []cty.Value
+	classes      []string // one input class per argument (for the counters)
+	profile      string
+	unknownKinds []string // kind of every unknown value drawn (top level or nested)
 }
 
 func paramFor(d *fnDef, pos int) function.Parameter {
@@ -409,6 +511,7 @@ func genArgs(r *rnd, d *fnDef) argList {
 		n += r.Intn(5)
 	}
 	var al argList
+	unkLog = unkLog[:0]
 	clean := r.Chance(9, 20)
 	if clean {
 		al.profile = "all-known"
@@ -421,6 +524,7 @@ func genArgs(r *rnd, d *fnDef) argList {
 		al.vals = append(al.vals, v)
 		al.classes = append(al.classes, cls)
 	}
+	al.unknownKinds = append([]string(nil), unkLog...)
 	// marks
 	if r.Chance(3, 20) && n > 0 {
 		k := r.Intn(n)
@@ -444,9 +548,9 @@ func genArg(r *rnd, d *fnDef, p function.Parameter, pos, n int, prev []cty.Value
 			return cty.DynamicVal, "dynamicval"
 		case k < 7:
 			return cty.NullVal(cty.DynamicPseudoType), "null-of-dynamic-type"
-		case k < 13:
+		case k < 12:
 			return cty.NullVal(instantiate(r, p.Type, d.bias)), "null"
-		case k < 25:
+		case k < 28:
 			ty := instantiate(r, p.Type, d.bias)
 			v := unknownOf(r, ty)
 			if v.Type() != cty.DynamicPseudoType && !v.RawEquals(cty.UnknownVal(v.Type())) {
